@@ -81,6 +81,116 @@ def plain_doc(seed, idx=0, sig=None):
     return d
 
 
+# ---------------------------------------------------------------- sparse object numbers and non-zero generations
+
+HIGH_NUMS = [255, 256, 65535, 65536, 65600]     # byte boundaries of the 3 object-number bytes of Algorithm 1
+HIGH_NUMS_BIG = [16777215, 8388607]              # thorough tier only: qpdf ignores object numbers above (file size / 3), so the file is padded to 50 MB
+HIGH_GENS = [1, 255, 256, 258]                                      # ... and of its 2 generation bytes
+
+
+def renumber(d, mapping):
+    """mapping: old number -> (new number, generation). Rewrites every key and every reference; d.gens = {number: generation}"""
+    def rw(o):
+        if isinstance(o, Ref):
+            n, g = mapping.get(o.n, (o.n, 0))
+            return Ref(n, g)
+        if isinstance(o, list):
+            return [rw(x) for x in o]
+        if isinstance(o, dict):
+            return {k: rw(v) for k, v in o.items()}
+        if isinstance(o, Stream):
+            return Stream(rw(o.d), o.data)
+        return o
+    objs, gens = {}, {}
+    for n, o in d.objects.items():
+        nn, g = mapping.get(n, (n, 0))
+        objs[nn] = rw(o)
+        gens[nn] = g
+    d.objects = objs
+    d.trailer = rw(d.trailer)
+    d.gens = gens
+    return d
+
+
+def padding(out_len, max_num):
+    """qpdf ignores xref entries whose object number exceeds (file size / 3) ('impossibly large id'): comment lines that bring the
+    file to that size"""
+    need = 3 * (max_num + 2) + 4096 - out_len
+    if need <= 0:
+        return b""
+    line = b"%" + b"p" * 78 + b"\n"
+    return line * (need // len(line) + 1)
+
+
+def spread(d, seed, what, big=False):
+    """what: 'nums' / 'gens' / 'both': move leaf-carrying objects to sparse high numbers and / or give them non-zero generations.
+    The catalog and the page tree keep generation 0 and low numbers (they may go into object streams)."""
+    rng = random.Random(seed)
+    cat = d.trailer[b"Root"].n
+    cands = [n for n, o in sorted(d.objects.items()) if n != cat and (isinstance(o, Stream) or n > 3)]
+    rng.shuffle(cands)
+    mapping = {}
+    highs = (HIGH_NUMS_BIG if big else []) + HIGH_NUMS
+    if what in ("nums", "both"):
+        for n, hn in zip(cands, highs):
+            mapping[n] = (hn, 0)
+    if what in ("gens", "both"):
+        pool = cands[len(highs):] if what == "both" else cands
+        for k, n in enumerate(pool[:8]):
+            mapping[n] = (n, HIGH_GENS[k % len(HIGH_GENS)])
+        if what == "both" and cands:
+            # one object with both: number 65536 and generation 258
+            n0 = [n for n in cands if mapping.get(n, (0, 0))[0] == 65536]
+            if n0:
+                mapping[n0[0]] = (65536, 258)
+    return renumber(d, mapping)
+
+
+def free_number(objs):
+    n = 1
+    while n in objs:
+        n += 1
+    return n
+
+
+def xref_sections(nums):
+    """consecutive runs of object numbers (0 included) for xref subsections / /Index"""
+    nums = sorted(set(nums) | {0})
+    runs, start, prev = [], nums[0], nums[0]
+    for n in nums[1:]:
+        if n != prev + 1:
+            runs.append((start, prev - start + 1))
+            start = n
+        prev = n
+    runs.append((start, prev - start + 1))
+    return runs
+
+
+def write_classic_sparse(W, trailer, gens=None, version=None):
+    """classic file with one xref table made of subsections (sparse object numbers are cheap), generations honoured"""
+    gens = gens or {}
+    out = bytearray()
+    out += b"%PDF-" + (version or W.version) + b"\n%\xbf\xf7\xa2\xfe\n"
+    offs = {}
+    for n in sorted(W.objects):
+        offs[n] = len(out)
+        out += pdfgen.ser_indirect(n, W.objects[n], gen=gens.get(n, 0))
+    out += padding(len(out), max(offs))
+    xoff = len(out)
+    out += b"xref\n"
+    for start, cnt in xref_sections(offs):
+        out += b"%d %d\n" % (start, cnt)
+        for i in range(start, start + cnt):
+            if i == 0:
+                out += b"0000000000 65535 f \n"
+            else:
+                out += b"%010d %05d n \n" % (offs[i], gens.get(i, 0))
+    tr = dict(trailer)
+    tr[b"Size"] = max(offs) + 1
+    out += b"trailer\n" + pdfgen.ser(tr) + b"\nstartxref\n%d\n%%%%EOF\n" % xoff
+    return bytes(out)
+
+
 # ---------------------------------------------------------------- plans
 
 def rand_name(rng):
@@ -224,6 +334,10 @@ class EncFile:
         V, R, _ = SCHEMES[plan["scheme"]]
         self.V, self.R, self.kl = V, R, plan["keylen"]
         self.plain = plain_doc(plan["docseed"], plan.get("idx", 0), plan.get("sig"))
+        self.plain.gens = {}
+        if plan.get("spread"):
+            spread(self.plain, plan["docseed"] + 7, plan["spread"], plan.get("spread_big", False))
+        self.gens = dict(self.plain.gens)
         self.user, self.owner = bytes.fromhex(plan["user"]), bytes.fromhex(plan["owner"])
         self.id0 = bytes.fromhex(plan["id0"])
         self.cf = {}        # name -> method char
@@ -334,7 +448,8 @@ class EncFile:
         # the encryption dictionary
         self.enc_num = None
         if p["enc_indirect"]:
-            self.enc_num = E.add(self.encdict).n
+            self.enc_num = free_number(E.objects)
+            E.objects[self.enc_num] = self.encdict
             E.trailer[b"Encrypt"] = Ref(self.enc_num)
         else:
             E.trailer[b"Encrypt"] = self.encdict
@@ -344,14 +459,14 @@ class EncFile:
         self.members = {}          # member objnum -> objstm number
         self.objstms = {}          # objstm number -> [member numbers]
         if p["layout"] == "objstm":
-            elig = [n for n, o in sorted(E.objects.items()) if not isinstance(o, Stream) and n != self.enc_num]
+            elig = [n for n, o in sorted(E.objects.items()) if not isinstance(o, Stream) and n != self.enc_num and self.gens.get(n, 0) == 0]
             rng.shuffle(elig)
             elig = sorted(elig[:max(1, (len(elig) * 2) // 3)])
             groups = [elig[i::2] for i in range(2)] if len(elig) > 3 else [elig]
             for g in groups:
                 if not g:
                     continue
-                sn = max(E.objects) + 1
+                sn = free_number(E.objects)
                 E.objects[sn] = None        # placeholder, built in serialise
                 self.objstms[sn] = g
                 for m in g:
@@ -408,11 +523,12 @@ class EncFile:
             leaves.append(dict(num=sn, path=("stream",), kind=sdict_token(dct, False), plain=body, container=True))
         for l in leaves:
             l["iv"] = bytes(rng.randrange(256) for _ in range(16))
+            l["gen"] = self.gens.get(l["num"], 0)
         self.leaves = leaves
         return leaves
 
     def iso_lines(self):
-        return ["c6isoleaf " + " ".join(self.cfg_tokens + [hexs(self.key), l["kind"], str(l["num"]), "0", hexs(l["iv"]), hexs(l["plain"])]) for l in self.leaves]
+        return ["c6isoleaf " + " ".join(self.cfg_tokens + [hexs(self.key), l["kind"], str(l["num"]), str(l["gen"]), hexs(l["iv"]), hexs(l["plain"])]) for l in self.leaves]
 
     # -- step 4: ciphertexts in, bytes out
     def serialise(self, iso_out):
@@ -449,10 +565,9 @@ class EncFile:
                 W.objects[n] = rebuild(o, n, ())
         tr = dict(E.trailer)
         if self.plan["layout"] == "classic":
-            W.trailer = tr
-            data, offs = pdfgen.write_classic(W)
+            data = write_classic_sparse(W, tr, self.gens)
         else:
-            data = write_xref_stream(W, tr, self.members, self.objstms, max(E.objects) + 1)
+            data = write_xref_stream(W, tr, self.members, self.objstms, free_number(E.objects), self.gens)
         self.bytes = data
         return data
 
@@ -490,37 +605,41 @@ def apply_crypt(d, form, name):
         raise ValueError(form)
 
 
-def write_xref_stream(W, trailer, members, objstms, size):
-    """file with a cross-reference stream (uncompressed /W [1 4 2]) and type-2 entries for object-stream members"""
+def write_xref_stream(W, trailer, members, objstms, xn, gens=None):
+    """file with a cross-reference stream (uncompressed /W [1 4 2], /Index subsections) and type-2 entries for object-stream
+    members; xn = the number of the xref stream object itself"""
+    gens = gens or {}
     out = bytearray()
     out += b"%PDF-" + (W.version if W.version >= b"1.5" else b"1.5") + b"\n%\xbf\xf7\xa2\xfe\n"
     offs = {}
     for n in sorted(W.objects):
         offs[n] = len(out)
-        out += pdfgen.ser_indirect(n, W.objects[n])
-    xn = size
-    size = xn + 1
+        out += pdfgen.ser_indirect(n, W.objects[n], gen=gens.get(n, 0))
+    out += padding(len(out), max(list(offs) + [m for g in objstms.values() for m in g] + [xn]))
     xoff = len(out)
-    rows = bytearray()
     idx_of = {}
     for sn, g in objstms.items():
         for k, m in enumerate(g):
             idx_of[m] = (sn, k)
-    for i in range(size):
-        if i == 0:
-            rows += b"\x00" + (0).to_bytes(4, "big") + (65535).to_bytes(2, "big")
-        elif i == xn:
-            rows += b"\x01" + xoff.to_bytes(4, "big") + (0).to_bytes(2, "big")
-        elif i in offs:
-            rows += b"\x01" + offs[i].to_bytes(4, "big") + (0).to_bytes(2, "big")
-        elif i in idx_of:
-            rows += b"\x02" + idx_of[i][0].to_bytes(4, "big") + idx_of[i][1].to_bytes(2, "big")
-        else:
-            rows += b"\x00" + (0).to_bytes(4, "big") + (0).to_bytes(2, "big")
+    allnums = set(offs) | set(idx_of) | {xn}
+    rows = bytearray()
+    index = []
+    for start, cnt in xref_sections(allnums):
+        index += [start, cnt]
+        for i in range(start, start + cnt):
+            if i == 0:
+                rows += b"\x00" + (0).to_bytes(4, "big") + (65535).to_bytes(2, "big")
+            elif i == xn:
+                rows += b"\x01" + xoff.to_bytes(4, "big") + (0).to_bytes(2, "big")
+            elif i in offs:
+                rows += b"\x01" + offs[i].to_bytes(4, "big") + gens.get(i, 0).to_bytes(2, "big")
+            else:
+                rows += b"\x02" + idx_of[i][0].to_bytes(4, "big") + idx_of[i][1].to_bytes(2, "big")
     d = dict(trailer)
     d[b"Type"] = N("XRef")
-    d[b"Size"] = size
+    d[b"Size"] = max(allnums) + 1
     d[b"W"] = [1, 4, 2]
+    d[b"Index"] = index
     out += pdfgen.ser_indirect(xn, Stream(d, bytes(rows)))
     out += b"startxref\n%d\n%%%%EOF\n" % xoff
     return bytes(out)
